@@ -8,12 +8,13 @@ Open Scope Z_scope.
 
 Section Depth.
 Variable re : string -> string -> bool.
+Variable ex : list string.   (* names the class excludes from additional keys: any *)
 Variable d : Z.
 Hypothesis d_pos : 1 <= d.
 
 Let o := opts_with_depth (Some d).
-Let C := node_decl (Some d).
-Let W := node_world (Some d).
+Let C := node_decl_ex ex (Some d).
+Let W := node_world_ex ex (Some d).
 
 Lemma depth_check_o k : depth_check o k = if d <? k then Raise (parse_err KDepth) else Ok tt.
 Proof. unfold depth_check, o. cbn [o_max_depth opts_with_depth]. destruct (d =? 0) eqn:E; [lia|]. reflexivity. Qed.
@@ -135,7 +136,7 @@ Proof.
   cbv -[tr list_link Z.ltb Z.eqb Z.add] in Hint. rewrite Hint.
   cbv -[tr list_link Z.ltb Z.eqb Z.add]. rewrite ?Hd0, ?Hk. cbv -[tr list_link Z.ltb Z.eqb Z.add].
   match goal with |- context [tr ?a ?b list_link ?c ?st] =>
-    destruct (tr a b list_link c st) as [s1 [r|ex| | |]] end;
+    destruct (tr a b list_link c st) as [s1 [r|exn0| | |]] end;
     cbv -[tr list_link Z.ltb Z.eqb Z.add]; reflexivity.
 Qed.
 
@@ -220,17 +221,17 @@ End Depth.
 Transparent transform.
 
 (* through the public entry point Cls.__from__(data) / Cls( **data) *)
-Lemma node_call re d t fuel : 1 <= d -> (2 * height t <= fuel)%nat ->
+Lemma node_call re ex d t fuel : 1 <= d -> (2 * height t <= fuel)%nat ->
   (Z.of_nat (height t) <= d ->
-     call_dataclass re (node_world (Some d)) fuel 0 None (to_val t) = Ok (inst t)) /\
+     call_dataclass re (node_world_ex ex (Some d)) fuel 0 None (to_val t) = Ok (inst t)) /\
   (d < Z.of_nat (height t) ->
-     raises_parse (call_dataclass re (node_world (Some d)) fuel 0 None (to_val t))).
+     raises_parse (call_dataclass re (node_world_ex ex (Some d)) fuel 0 None (to_val t))).
 Proof.
-  intros Hd Hf. unfold call_dataclass. cbn [node_world].
-  replace {| c_fields := c_fields (node_decl (Some d)); c_alias_map := c_alias_map (node_decl (Some d));
-             c_ci_names := c_ci_names (node_decl (Some d)); c_options := c_options (node_decl (Some d));
-             c_dfs := c_dfs (node_decl (Some d)); c_exclude_vars := c_exclude_vars (node_decl (Some d));
-             c_dict_based := c_dict_based (node_decl (Some d)) |} with (node_decl (Some d)) by reflexivity.
-  destruct (node_parse re d Hd t fuel 0 default_options Hf eq_refl) as [H1 H2].
+  intros Hd Hf. unfold call_dataclass. cbn [node_world_ex].
+  replace {| c_fields := c_fields (node_decl_ex ex (Some d)); c_alias_map := c_alias_map (node_decl_ex ex (Some d));
+             c_ci_names := c_ci_names (node_decl_ex ex (Some d)); c_options := c_options (node_decl_ex ex (Some d));
+             c_dfs := c_dfs (node_decl_ex ex (Some d)); c_exclude_vars := c_exclude_vars (node_decl_ex ex (Some d));
+             c_dict_based := c_dict_based (node_decl_ex ex (Some d)) |} with (node_decl_ex ex (Some d)) by reflexivity.
+  destruct (node_parse re ex d Hd t fuel 0 default_options Hf eq_refl) as [H1 H2].
   split; intros H; [apply H1|apply H2]; lia.
 Qed.
